@@ -152,8 +152,10 @@ class QRModel:
                 for cname, c in fr.cols.items():
                     t = t + self.coefs[cname] * real(c.t)
                 return V(t, (fr.axis,), None)
-            f = z3.Function(fresh_name("qr_pred"), z3.IntSort(), z3.RealSort())
-            return V(f(fr.axis.root.u), (fr.axis,), None)
+            # opaque design matrix: the prediction is a function of (this model's coefficients, the unit's row)
+            if not hasattr(self, "pred_fn"):
+                self.pred_fn = z3.Function(fresh_name("qr_pred"), z3.IntSort(), z3.RealSort())
+            return V(self.pred_fn(fr.axis.root.u), (fr.axis,), None)
         raise Undecided("predict on something that is not a design matrix")
 
 
@@ -240,7 +242,29 @@ def make_scipy(interp):
     return {"norm": {"ppf": ppf}}
 
 
+def py_namedtuple(name, fields, defaults=None, **kw):
+    from .values import NamedTuple
+
+    fields = list(fields)
+    defaults = list(defaults or [])
+
+    def make(*args, **kwargs):
+        vals = list(args)
+        for f in fields[len(vals):]:
+            if f in kwargs:
+                vals.append(kwargs[f])
+            else:
+                i = fields.index(f) - (len(fields) - len(defaults))
+                if i < 0:
+                    raise SymRaise(ExcVal("TypeError", (f"{name}() missing argument {f}",)))
+                vals.append(defaults[i])
+        return NamedTuple(name, fields, vals)
+
+    return make
+
+
 def install(theories, interp):
+    theories["collections"] = {"namedtuple": py_namedtuple, "defaultdict": lambda *a, **k: dict()}
     theories["elexsolver.QuantileRegressionSolver"] = {"QuantileRegressionSolver": qr_factory(interp)}
     sc = make_scipy(interp)
     theories["scipy"] = {"stats": sc}
